@@ -9,6 +9,7 @@ package dastard
 // Stop, after the source ended itself (no refreshing call in between).
 
 import (
+	"sort"
 	"encoding/base64"
 	"fmt"
 	"os"
@@ -244,6 +245,13 @@ func c11Run(c c11Case) (v vVerdict) {
 		name := st.Op
 		mustErr, mustOK := "", false
 		queued := true // goes through runLaterIfActive
+		couplingOp := st.Op == "group" || st.Op == "stopcoupling" || st.Op == "couple"
+		connBefore := ""
+		if couplingOp && e.running && sc.ActiveSource != nil && sc.ActiveSource.Running() {
+			c11SettleClientMessages()
+			vTakeClientMessages()
+			connBefore = c11Conn(sc.ActiveSource.ComputeGroupTriggerState())
+		}
 		switch st.Op {
 		case "start":
 			if sc.isSourceActive && !e.running && !c.RealRPC {
@@ -671,6 +679,36 @@ func c11Run(c c11Case) (v vVerdict) {
 		if bad != nil {
 			return *bad
 		}
+		if couplingOp && connBefore != "" && e.running && sc.ActiveSource.Running() {
+			// C09, last clause, at its observation point: the GROUPTRIGGER state sent to the clients is the set in use
+			c11SettleClientMessages()
+			used := c11Conn(sc.ActiveSource.ComputeGroupTriggerState())
+			reported, coupling := "", -1
+			for _, u := range vTakeClientMessages() {
+				if u.tag == "GROUPTRIGGER" {
+					if gs, ok := u.state.(*GroupTriggerState); ok {
+						reported = c11Conn(*gs)
+					} else if gs, ok := u.state.(GroupTriggerState); ok {
+						reported = c11Conn(gs)
+					}
+				}
+				if u.tag == "TRIGCOUPLING" {
+					if cs, ok := u.state.(CouplingStatus); ok {
+						coupling = int(cs)
+					}
+				}
+			}
+			e.classes["coupling-report-checked"] = true
+			if reported != "" && reported != used {
+				return vFailf("reported-coupling-stale", "step %d (%s): the GROUPTRIGGER state sent to clients is %s, the connections in use are %s", i, name, reported, used)
+			}
+			if reported == "" && used != connBefore {
+				return vFailf("coupling-change-not-reported", "step %d (%s, returned %v): the connections in use changed from %s to %s but no GROUPTRIGGER state was sent to clients", i, name, err, connBefore, used)
+			}
+			if st.Op == "couple" && err != nil && coupling > int(NoCoupling) {
+				return vFailf("rejected-coupling-reported", "step %d (%s): the request was rejected (%v), connections in use %s, yet clients were told TRIGCOUPLING=%d", i, name, err, used, coupling)
+			}
+		}
 		if st.Op == "readcomment" {
 			continue
 		}
@@ -822,3 +860,79 @@ func c11Gen(t *rapid.T) c11Case {
 }
 
 func TestVerif_C11(t *testing.T) { vCheck(t, "C11", c11Gen, c11Run) }
+
+
+// c11SettleClientMessages waits until the harness' consumer has logged everything sent on the client-update channel so
+// far: a marker is sent through the same (FIFO) channel and awaited in the log.
+var c11SyncN int
+
+func c11SettleClientMessages() {
+	c11SyncN++
+	id := c11SyncN
+	clientMessageChan <- ClientUpdate{"VERIFSYNC", id}
+	deadline := time.Now().Add(5 * time.Second)
+	for time.Now().Before(deadline) {
+		vClientMu.Lock()
+		found := false
+		for k := len(vClientLog) - 1; k >= 0 && !found; k-- {
+			if vClientLog[k].tag == "VERIFSYNC" {
+				found = vClientLog[k].state.(int) >= id
+				break
+			}
+		}
+		vClientMu.Unlock()
+		if found {
+			return
+		}
+		time.Sleep(50 * time.Microsecond)
+	}
+}
+
+// c11Conn renders a connection state canonically ("-" for no connection).
+func c11Conn(gs GroupTriggerState) string {
+	var pairs []string
+	for src, rxs := range gs.Connections {
+		for _, rx := range rxs {
+			pairs = append(pairs, fmt.Sprintf("%04d>%04d", src, rx))
+		}
+	}
+	if len(pairs) == 0 {
+		return "-"
+	}
+	sort.Strings(pairs)
+	return strings.Join(pairs, " ")
+}
+
+// C09R: the same request machinery, histories made of coupling requests: what the RPC layer reports vs. what is in use.
+func c09rGen(t *rapid.T) c11Case {
+	c := c11Case{Source: rapid.SampledFrom([]string{"scripted", "lancero", "lancero", "triangle"}).Draw(t, "source"),
+		Nchan: rapid.IntRange(2, 4).Draw(t, "nchan"), Nsamp: 32, Npre: 8}
+	if c.Source == "lancero" {
+		c.Nchan = rapid.SampledFrom([]int{4, 6}).Draw(t, "lnchan")
+	}
+	c.Steps = append(c.Steps, c11Step{Op: "start"})
+	n := rapid.IntRange(2, 12).Draw(t, "nops")
+	idx := func(label string) int {
+		return rapid.SampledFrom([]int{0, 1, 1, 2, 3, c.Nchan - 1, c.Nchan, -1, 99}).Draw(t, label)
+	}
+	for i := 0; i < n; i++ {
+		switch k := rapid.IntRange(0, 9).Draw(t, "kind"); {
+		case k < 6:
+			st := c11Step{Op: "group", Src: idx("src"), Flag: rapid.IntRange(0, 3).Draw(t, "add") != 0}
+			for q, nrx := 0, rapid.IntRange(1, 3).Draw(t, "nrx"); q < nrx; q++ {
+				st.Rx = append(st.Rx, idx("rx"))
+			}
+			c.Steps = append(c.Steps, st)
+		case k < 8:
+			c.Steps = append(c.Steps, c11Step{Op: "couple", Kind: rapid.SampledFrom([]string{"fb", "err"}).Draw(t, "ckind"), Flag: rapid.IntRange(0, 2).Draw(t, "on") != 0})
+		case k < 9:
+			c.Steps = append(c.Steps, c11Step{Op: "stopcoupling"})
+		default:
+			c.Steps = append(c.Steps, c11Step{Op: "wait", N: rapid.IntRange(0, 7).Draw(t, "w")})
+		}
+	}
+	c.Steps = append(c.Steps, c11Step{Op: "stop"})
+	return c
+}
+
+func TestVerif_C09R(t *testing.T) { vCheck(t, "C09R", c09rGen, c11Run) }
